@@ -5,7 +5,6 @@
 package main
 
 import (
-	"bufio"
 	"context"
 	"encoding/json"
 	"errors"
@@ -309,10 +308,10 @@ func readMergedReports(ctx context.Context, fileName string, s *storage.API) ([]
 	defer in.Close()
 
 	var reports []telemetry.Report
-	scanner := bufio.NewScanner(in)
-	for scanner.Scan() {
+	dec := json.NewDecoder(in) // one JSON value per line, of any length
+	for dec.More() {
 		var report telemetry.Report
-		if err := json.Unmarshal(scanner.Bytes(), &report); err != nil {
+		if err := dec.Decode(&report); err != nil {
 			return nil, err
 		}
 		reports = append(reports, report)
